@@ -526,7 +526,7 @@ def main(argv):
     return c.finish(level="proof",
                     rule="wrap_lines: every line over {a, e-acute, euro sign, U+1F600, space, middle dot} up to length %d x widths 1-6 x both -s modes x both delimiter preference orders; random lines of 1-4 byte code points (incl. CR, U+FFFD, U+10FFFF) with delimiter runs, widths around the line length, 7 delimiter lists incl. empty and multi-byte; malformed UTF-8 lines; tool level: bin/foldfilter x option sets x identity/bracketing/upper-casing children on multi-line inputs incl. empty lines, CR, no final newline. distinct = distinct non-empty inputs" % (5 if quick else 6),
                     assumptions=["lines shorter than 2^31 bytes (pos_first_delimiter is an int32_t)",
-                                 "valid UTF-8 = accepted by util::DecodeUTF8 (C12 proves that this is Unicode Table 3-7)",
+                                 "valid UTF-8 = accepted by the model of util::DecodeUTF8; every Unicode Table 3-7 byte string is (theorem C07_table37_is_valid, exhaustive sweeps over the regenerated scanner constants)",
                                  "the child is line-preserving: one answer line (without LF) per piece; pipes and threads are C05/C16",
                                  "the reader delivers the records of stdin (C02)"])
 
